@@ -27,7 +27,8 @@ def run(res, args):
             return rep, info, {'site': 'SVG_NAMED_COLORS', 'keyword': ob['keyword']}
         # dispatch refutations: probe the three non-table arms through the CLI
         failed = []
-        for kw, want in (('transparent', [0, 0, 0]), ('TransParent', [0, 0, 0]), ('#102030', [16, 32, 48]), ('Red', [255, 0, 0]), ('red', [255, 0, 0]), ('nosuchcolour', None), ('#12', None)):
+        for kw, want in (('transparent', [0, 0, 0]), ('TransParent', [0, 0, 0]), ('#102030', [16, 32, 48]), ('Red', [255, 0, 0]), ('red', [255, 0, 0]), ('nosuchcolour', None), ('#12', None),
+                         ('##fff', None), ('###80123abc', None), ('#', None), ('##', None), ('# fff', None), ('#fff#', None), (' #fff', None), ('#ffff ', None)):
             rep, info = O.replay_color_keyword(kw, want, d)
             if rep:
                 failed.append(info)
